@@ -1607,6 +1607,8 @@ class rate_limit(Stream):
     def __init__(self, upstream, interval, **kwargs):
         self.interval = convert_interval(interval)
         self.next = 0
+        self._last = None   # when the previous element was let through
+        self._turn = None   # done once the previous element has been let through
 
         kwargs["ensure_io_loop"] = True
         Stream.__init__(self, upstream, **kwargs)
@@ -1617,8 +1619,25 @@ class rate_limit(Stream):
         now = time()
         old_next = self.next
         self.next = max(now, self.next) + self.interval
-        if now < old_next:
-            yield gen.sleep(old_next - now)
+        before, mine = self._turn, gen.Future()
+        self._turn = mine
+        try:
+            if now < old_next:
+                yield gen.sleep(old_next - now)
+            # The slots above are computed at arrival.  When the event loop
+            # was busy past the slots of several waiting elements (a consumer
+            # that blocks it), their timers all fire at once: keep the order
+            # of arrival and the distance to the element that actually went
+            # through before.
+            if before is not None and not before.done():
+                yield before
+            if self._last is not None:
+                late = self._last + self.interval - time()
+                if late > 0:
+                    yield gen.sleep(late)
+            self._last = time()
+        finally:
+            mine.set_result(None)
         yield self._emit(x, metadata=metadata)
         self._release_refs(metadata)
 
